@@ -177,6 +177,7 @@ pub fn c17() -> i32 {
     rep.rule = "grid: scenarios (topologies with several local players / three or more peers, with and without spectators, fault-free and two faulty fixed schedules) x hash seeds enumerated until every iteration order of every registry map (and as many order tuples as the seed budget reaches) has occurred x rng seeds; each run compared with the run under the first seed; non-trivial = run under a seed that produced a new tuple of iteration orders; distinct = distinct order tuples".to_owned();
     rep.assumptions = vec!["the simulated network hands packets over in canonical (due round, source, sequence) order, so the premise 'same packets in the same order' holds whatever order the peers sent in".into(), "deterministic game (a genuinely desynchronised game is outside the statement)".into()];
     let scns = scenarios(t);
+    crate::explore::audit_scenarios(&scns, Some(0), false);
     let seed_budget: u64 = if t { 2000 } else { 300 };
     let seed_cap: u64 = if t { 60_000 } else { 4000 };
     let rng_seeds: Vec<u64> = if t { vec![7, 1, 2, 3] } else { vec![7, 2] };
